@@ -50,6 +50,8 @@ def opPre (s : JobList) : Op → Bool
   | .insertJob pid _ _ _ => insertPre s pid
   | .amp pid _ _ _ => insertPre s pid
   | .hjs pid r _ _ => !r.isStopped || insertPre s pid
+  | .addJob pid _ => insertPre s pid
+  | .ajs pid r _ _ => !r.isStopped || insertPre s pid
   | _ => true
 
 /-- "a job's number never changes while the job exists": every pid present before is, after the
@@ -139,6 +141,8 @@ def becameSuspended (s : JobList) : Op → Option (Nat × Bool)
   | .insert pid st => if st.isStopped then some (pid, true) else none
   | .insertJob pid st _ _ => if st.isStopped then some (pid, true) else none
   | .hjs pid r _ _ => if r.isStopped then some (pid, true) else none
+  | .addJob pid st => if st.isStopped then some (pid, true) else none
+  | .ajs pid r _ _ => if r.isStopped then some (pid, true) else none
   | .update pid st =>
     if st.isStopped then
       match (lookup s.pids pid).bind s.get with
